@@ -43,9 +43,13 @@ TRUSTED = [
     "SAME peer address and port. asyncio contract (modelled): connection_lost is delivered once after transport.close(), "
     "and a peer address is reused only after that delivery. The model's `lose` op stands for the end of a connection "
     "however initiated. The session cipher for the bad-frame close is installed by the harness just before the frame",
-    "scope (DESIGN C10 Reading): batches address existing characteristics with pairwise distinct (aid,iid); no 'ev' flags "
-    "(C12); ALWAYS_NULL characteristics and allow_invalid_client_values are not exercised; handlers are marked verified "
-    "(is_encrypted) directly, the 401 path is C03's",
+    "scope: batches are arbitrary lists of entries — the same (aid,iid) may be named several times, entries may name "
+    "something that is not a characteristic (unknown iid, unknown aid, the iid of a service), entries may carry 'ev' "
+    "(subscription itself is C12's; here only that it does not disturb the write path); ALWAYS_NULL characteristics and "
+    "allow_invalid_client_values are not exercised; handlers are marked verified (is_encrypted) directly, the 401 path is C03's",
+    "for a characteristic named several times in one batch the application callback is scripted per invocation (the k-th "
+    "invocation in the request behaves as scripted for the k-th entry that reaches the callback: has a non-null value "
+    "the characteristic accepts); the oracle then demands only what every sequential reading of the batch grants (see judge_write)",
     "virtual clock: the name `time` in pyhap.accessory_driver is replaced by a stub whose time() returns the script clock "
     "(multiples of 125 ms, exact in binary floating point)",
     "harness/ref/writes.py (live-prepare judgement, value canonicalisation), harness generators and the oracle in this file",
@@ -188,12 +192,20 @@ class World:
             if aid in self.acc_cb:
                 acc.setter_callback = self._acc_cb(aid, acc)
         self.driver.http_server.loop = self.loop
+        self.driver.aio_stop_event = asyncio.Event()  # what async_start creates; event delivery consults it
         self.conns: Dict[int, Any] = {}  # conn index -> (HAPServerProtocol, Transport) of the OPEN connection
 
     # --- application callbacks (behaviour scripted per request) -----------------------------
-    def _char_cb(self, cid, spec):
+    def _char_cb(self, cid, specs):
+        """`specs`: behaviour of the 1st, 2nd, ... invocation within the current request."""
+        calls = [0]
+
         def cb(value):
-            rec = {"level": "char", "id": cid, "arg": value, "raised": spec == "raise", "ret": None}
+            k = calls[0]
+            calls[0] += 1
+            spec = specs[k] if k < len(specs) else "raise"  # an invocation the script did not foresee
+            rec = {"level": "char", "id": cid, "arg": value, "raised": spec == "raise", "ret": None,
+                   "unforeseen": k >= len(specs)}
             self.log.append(rec)
             if spec == "raise":
                 raise Raised(f"char {cid}")
@@ -337,15 +349,25 @@ class World:
             return {"http": code, "status": (body or {}).get("status"), "prep": self.prepared()}
         assert kind == "write"
         q = {"characteristics": []}
+        specs: Dict[Tuple[int, int], List[Any]] = {}
         for e in op["entries"]:
             item = {"aid": e["aid"], "iid": e["iid"]}
             if e["hasValue"]:
                 item["value"] = e["value"]
             if e.get("r") is not None:
                 item["r"] = e["r"]
+            if e.get("ev") is not None:
+                item["ev"] = e["ev"]
             q["characteristics"].append(item)
             cid = (e["aid"], e["iid"])
-            self.chars[cid].setter_callback = None if e["cb"] == "none" else self._char_cb(cid, e["cb"])
+            if cid not in self.chars:
+                continue  # names something that is not a characteristic
+            specs.setdefault(cid, [])
+            if reaches_callback(e):
+                specs[cid].append(e["cb"])
+        for cid, sp in specs.items():
+            absent = any(e["cb"] == "none" for e in op["entries"] if (e["aid"], e["iid"]) == cid)
+            self.chars[cid].setter_callback = None if absent else self._char_cb(cid, sp)
         if op.get("pid") is not None:
             q["pid"] = op["pid"]
         self.behav["svcRaise"] = {tuple(x) for x in op["svcRaise"]}
@@ -389,13 +411,25 @@ def twin() -> World:
 
 def normalise(cid, value):
     """(accepted, normalised value) by the characteristic's own validation, on a detached twin."""
-    ch = twin().chars[cid]
+    ch = twin().chars.get(cid)
+    if ch is None:
+        return False, None
     try:
         n = ch.to_valid_value(value)
         ch.valid_value_or_raise(n)
     except ValueError:
         return False, None
     return True, n
+
+
+def reaches_callback(e) -> bool:
+    """the entry carries a non-null value that its characteristic accepts (so an executed request hands it
+    to the characteristic's callback)"""
+    return bool(e["hasValue"] and e["value"] is not None and normalise((e["aid"], e["iid"]), e["value"])[0])
+
+
+def is_ghost(e) -> bool:
+    return (e["aid"], e["iid"]) not in twin().chars
 
 
 # ------------------------------------------------------------------------------- generation
@@ -455,6 +489,44 @@ def gen_value(rng, cid, kind):
     return rng.choice(["12", "warm", [3], {"a": 1}])
 
 
+GHOSTS = [(2, 999), (9, 2), (2, 1), (1, 1), (3, 0), (77, 77)]  # unknown iid / unknown aid / the iid of a service
+
+
+def gen_ghost(rng):
+    aid, iid = rng.choice(GHOSTS)
+    e = {"aid": aid, "iid": iid, "hasValue": rng.random() < 0.85, "value": rng.choice([1, True, "x", None, 2.5]),
+         "r": rng.choice([None, True]), "cb": "none"}
+    if not e["hasValue"]:
+        e["value"] = None
+    return e
+
+
+def add_extras(rng, entries, ghosts=0.12, dups=0.12, evs=0.10):
+    """Sometimes: name a characteristic of the batch again, name something that is not a characteristic,
+    carry an 'ev' flag (alone or next to the value)."""
+    entries = list(entries)
+    if entries and rng.random() < dups:
+        for _ in range(rng.choice([1, 1, 2])):
+            src = rng.choice(entries)
+            cid = (src["aid"], src["iid"])
+            if cid not in twin().chars:
+                continue
+            e = gen_entry(rng, cid)
+            same = [x for x in entries if (x["aid"], x["iid"]) == cid]
+            if any(x["cb"] == "none" for x in same):
+                e["cb"] = "none"  # one characteristic has one setter_callback attribute
+            elif e["cb"] == "none":
+                e["cb"] = ["ret", None]
+            entries.insert(rng.randrange(len(entries) + 1), e)
+    if rng.random() < ghosts:
+        for _ in range(rng.choice([1, 1, 2])):
+            entries.insert(rng.randrange(len(entries) + 1), gen_ghost(rng))
+    if rng.random() < evs:
+        for e in rng.sample(entries, min(len(entries), rng.choice([1, 2]))):
+            e["ev"] = rng.choice([True, False])
+    return entries
+
+
 def gen_entry(rng, cid, want=None):
     kind = want or rng.choices(
         ["ok", "norm", "reject", "null", "novalue"], weights=[46, 16, 16, 10, 12]
@@ -492,6 +564,7 @@ def gen_batch(rng, topo, conn, pid, size=None, calm=False):
         for e in entries:
             if e["cb"] == "raise" and rng.random() < 0.8:
                 e["cb"] = ["ret", None]
+    entries = add_extras(rng, entries)
     p = 0.04 if calm else 0.25
     svc_raise = [list(s) for s in sorted(topo["svcCb"]) if rng.random() < p]
     acc_raise = [a for a in sorted(topo["accCb"]) if rng.random() < p]
@@ -655,6 +728,45 @@ def mixed_boundary(rng):
                     out.append({"topo": topo, "ops": [{
                         "op": "write", "conn": 0, "pid": None, "http": rng.random() < 0.5, "entries": order,
                         "svcRaise": [], "accRaise": []}]})
+    # the same characteristic named twice (every kind before / after a good entry), something that is not a
+    # characteristic next to good entries (before, between, after), 'ev' alone and next to a value
+    def wr(entries, topo=topo_all, http=True, pid=None, conn=0):
+        return {"op": "write", "conn": conn, "pid": pid, "http": http, "entries": entries, "svcRaise": [], "accRaise": []}
+
+    g0, g1 = multi[0][0], multi[0][1]
+    for k1 in kinds:
+        for cbs in (("none", "none"), (["ret", "resp"], ["ret", None]), ("raise", ["ret", 5]), (["ret", None], "raise")):
+            for first_good in (True, False):
+                a = gen_entry(rng, g0, "ok")
+                b = gen_entry(rng, g0, k1)
+                a["cb"], b["cb"] = (cbs if first_good else cbs[::-1])
+                a["r"] = b["r"] = True
+                c = gen_entry(rng, g1, "ok")
+                c["cb"] = ["ret", None]
+                out.append({"topo": topo_all, "ops": [wr([a, c, b] if first_good else [b, c, a], http=rng.random() < 0.5)]})
+    for gh in GHOSTS:
+        for pos in (0, 1, 2):
+            a = gen_entry(rng, g0, "ok")
+            a["cb"] = ["ret", None]
+            c = gen_entry(rng, rng.choice([t for t in targets() if t[0] != g0[0]]), "ok")
+            c["cb"] = "none"
+            g = {"aid": gh[0], "iid": gh[1], "hasValue": True, "value": 1, "r": None, "cb": "none"}
+            es = [a, c]
+            es.insert(pos, g)
+            out.append({"topo": topo_all if pos else topo_none, "ops": [wr(es, http=pos != 1)]})
+    out.append({"topo": topo_all, "ops": [wr([{"aid": 2, "iid": 999, "hasValue": True, "value": 1, "r": None, "cb": "none"}])]})
+    out.append({"topo": topo_all, "ops": [wr([{"aid": 2, "iid": 999, "hasValue": False, "value": None, "r": None, "cb": "none", "ev": True}])]})
+    out.append({"topo": topo_all, "ops": [wr([{"aid": 9, "iid": 2, "hasValue": True, "value": 1, "r": None, "cb": "none"}], pid=7)]})
+    P = lambda conn, ttl, pid: {"op": "prepare", "conn": conn, "ttl": ttl, "pid": pid, "http": True}  # noqa: E731
+    a = gen_entry(rng, g0, "ok")
+    a["cb"] = ["ret", None]
+    out.append({"topo": topo_all, "ops": [P(0, 1000, 7), wr([a, {"aid": 2, "iid": 999, "hasValue": True, "value": 1, "r": None, "cb": "none"}], pid=7)]})
+    for ev in (True, False):
+        a = gen_entry(rng, g0, "ok")
+        a["cb"] = ["ret", None]
+        a["ev"] = ev
+        b = {"aid": g1[0], "iid": g1[1], "hasValue": False, "value": None, "r": None, "cb": "none", "ev": ev}
+        out.append({"topo": topo_all, "ops": [wr([a, b]), wr([b, a], pid=7), wr([a], conn=1)]})
     # failing service / accessory callbacks next to healthy services
     for sr, ar in (([[2, 1]], []), ([], [3]), ([[3, 1]], [3]), ([[4, 2]], [2])):
         ids = [c for c in targets() if c[0] in (2, 3, 4)]
@@ -698,7 +810,7 @@ def model_line(script: dict):
             cid = (e["aid"], e["iid"])
             acc, n = (False, None)
             if e["hasValue"] and e["value"] is not None:
-                acc, n = normalise(cid, e["value"])
+                acc, n = normalise(cid, e["value"])  # (False, None) for something that is not a characteristic
             cb = e["cb"]
             if isinstance(cb, list):
                 cb = ["ret", ref.canon(cb[1])]
@@ -778,29 +890,46 @@ def judge_write(ctx: Ctx, script: dict, idx: int, ops: List[dict], obs: dict, wo
     by_id: Dict[Tuple[int, int], List[dict]] = {}
     for it in items:
         by_id.setdefault((it.get("aid"), it.get("iid")), []).append(it)
+    entries = op["entries"]
+    refused = pid is not None and not ref.live_prepare(ops[:idx], conn, pid, op["t"])
     if http == 500:
-        bad("C10:write-request-aborted", f"the write request was aborted by an exception (HTTP 500, {body!r}): no status per characteristic")
+        ghosts = [(e["aid"], e["iid"]) for e in entries if is_ghost(e) and (e["hasValue"] or refused)]
+        others = [(e["aid"], e["iid"]) for e in entries if not is_ghost(e) and (e["hasValue"] or refused)]
+        if ghosts and others:
+            bad("C10:nonexistent-characteristic-aborts-request",
+                f"the request names {ghosts}, which are not characteristics of the bridge, next to the characteristics "
+                f"{others}: the whole request was aborted by an exception (HTTP 500, {body!r}) — no status for any "
+                f"characteristic, the entries before the nonexistent one were already written (values {changed_now(obs)} "
+                f"changed, {len(obs['log'])} callback(s) ran), the entries after it never were, no service/accessory "
+                f"callback ran: a failing entry stopped the others")
+        elif not ghosts:
+            bad("C10:write-request-aborted", f"the write request was aborted by an exception (HTTP 500, {body!r}): no status per characteristic")
+        # a request that names nothing but nonexistent things has no written characteristic: not judged
         return
     if (http == 204) != (body is None) or http not in (204, 207):
         bad("C10:http-status-body-mismatch", f"HTTP {http} with body {body!r}")
         return
     changed = [c for c in obs["before"] if not ref.same_value(obs["before"][c], obs["after"][c])
                or type(obs["before"][c]) is not type(obs["after"][c])]
-    entries = op["entries"]
 
     # ---- timed writes: "executed only if the same connection prepared that identifier and its
     # time-to-live has not elapsed, each prepare is usable once, and otherwise no value is written,
     # no callback runs and every characteristic is answered with the invalid-value status"
-    if pid is not None and not ref.live_prepare(ops[:idx], conn, pid, op["t"]):
+    if refused:
         why = []
         if changed:
             why.append(f"values of {changed} were written")
         if obs["log"]:
             why.append(f"{len(obs['log'])} callback(s) ran ({', '.join(sorted({r['level'] for r in obs['log']}))})")
-        wrong = [
-            (e["aid"], e["iid"]) for e in entries
-            if [it.get("status") for it in by_id.get((e["aid"], e["iid"]), [])] != [ref.INVALID_VALUE]
-        ]
+        wrong = []
+        for e in entries:
+            cid = (e["aid"], e["iid"])
+            sts = [it.get("status") for it in by_id.get(cid, [])]
+            if is_ghost(e):  # not a characteristic: any failure status (or none at all), never success
+                if 0 in sts:
+                    wrong.append(cid)
+            elif sts != [ref.INVALID_VALUE]:
+                wrong.append(cid)
         if wrong:
             why.append(f"HTTP {http}; entries {wrong} not answered {ref.INVALID_VALUE}")
         if why:
@@ -812,9 +941,12 @@ def judge_write(ctx: Ctx, script: dict, idx: int, ops: List[dict], obs: dict, wo
         return
 
     # ---- executed request (untimed, or timed with a live prepare)
-    if pid is not None and entries and not changed and not obs["log"] and len(items) == len(entries) and all(
+    if pid is not None and entries and not changed and not obs["log"] and len(items) == len({(e["aid"], e["iid"]) for e in entries}) and all(
         it.get("status") == ref.INVALID_VALUE for it in items
-    ) and any(e["hasValue"] and e["value"] is not None and normalise((e["aid"], e["iid"]), e["value"])[0] for e in entries):
+    ) and any(
+        # a characteristic ALL of whose entries carry an acceptable value is not answered invalid-value by an executed request
+        all(reaches_callback(x) for x in entries if (x["aid"], x["iid"]) == (e["aid"], e["iid"])) for e in entries
+    ):
         bad(
             "C10:timed-write-with-live-prepare-refused",
             f"connection {conn} prepared pid {pid}, has not used it, and its time to live has not elapsed "
@@ -822,21 +954,28 @@ def judge_write(ctx: Ctx, script: dict, idx: int, ops: List[dict], obs: dict, wo
         )
         return
     all_ok = True
-    wr_due = False
+    wr_due_sure = False   # a write-response value is due under every sequential reading of the batch
+    wr_due_maybe = False  # ... under some reading (differs from _sure only for a characteristic named twice)
+    named: List[Tuple[int, int]] = []
     for e in entries:
-        if not e["hasValue"]:
-            continue  # not a written characteristic
-        cid = (e["aid"], e["iid"])
-        sidx = world.svc_of[cid]
+        if e["hasValue"] and (e["aid"], e["iid"]) not in named:
+            named.append((e["aid"], e["iid"]))  # the written characteristics
+    for cid in named:
+        es = [e for e in entries if e["hasValue"] and (e["aid"], e["iid"]) == cid]
         its = by_id.get(cid, [])
+        if cid not in world.chars:
+            # names no characteristic: nothing can have been written, so it must not be answered success
+            # (and must not stop the others: they are judged below as always)
+            if any(it.get("status") == 0 for it in its):
+                bad("C10:success-status-without-effect", f"{cid} is not a characteristic of the bridge but was answered success")
+            all_ok = False
+            continue
+        sidx = world.svc_of[cid]
         if http == 207 and len(its) != 1:
             bad("C10:not-one-status-per-characteristic", f"{cid} has {len(its)} entries in the 207 body")
             return
         status = its[0].get("status") if its else 0  # a 204 answers success for every entry
-        acc, n = (False, None)
-        if e["value"] is not None:
-            acc, n = normalise(cid, e["value"])
-        has_ccb = e["cb"] != "none"
+        has_ccb = es[0]["cb"] != "none"
         has_scb = [cid[0], sidx] in script["topo"]["svcCb"]
         has_acb = cid[0] in script["topo"]["accCb"]
         ccalls = [r for r in obs["log"] if r["level"] == "char" and r["id"] == cid]
@@ -848,6 +987,44 @@ def judge_write(ctx: Ctx, script: dict, idx: int, ops: List[dict], obs: dict, wo
 
         def acc_arg():
             return [v for s, us in acalls[0]["arg"] if s == sidx for c, v in us if c == cid]
+
+        if len(es) > 1:
+            # The characteristic is named several times. The property does not say which entry counts; demanded
+            # is only what every sequential reading grants: ONE status; success means the stored value is the
+            # normalised value of one of the entries, the characteristic callback's last invocation and the
+            # (single) service and accessory invocations carry that stored value, and none of these raised.
+            cands = [normalise(cid, e["value"])[1] for e in es if reaches_callback(e)]
+            stored = obs["after"][cid]
+            problems = []
+            if not cands:
+                problems.append("no entry carries a value acceptable for the characteristic")
+            elif not any(ref.same_value(stored, n) and type(stored) is type(n) for n in cands):
+                problems.append(f"stored value {stored!r} is the normalised value of none of the entries ({cands!r})")
+            else:
+                if has_ccb and not (1 <= len(ccalls) <= len(es) and ref.same_value(ccalls[-1]["arg"], stored)):
+                    problems.append(f"characteristic callback ran {len(ccalls)} time(s) with {[r['arg'] for r in ccalls]!r}, stored value is {stored!r}")
+                if has_scb and not (len(scalls) == 1 and len(svc_arg()) == 1 and ref.same_value(svc_arg()[0], stored)):
+                    problems.append(f"service callback ran {len(scalls)} time(s) / got {svc_arg() if scalls else None!r} for {cid}, stored value is {stored!r}")
+                if has_acb and not (len(acalls) == 1 and len(acc_arg()) == 1 and ref.same_value(acc_arg()[0], stored)):
+                    problems.append(f"accessory callback ran {len(acalls)} time(s) / got {acc_arg() if acalls else None!r} for {cid}, stored value is {stored!r}")
+            raised = [r["level"] for r in ccalls[-1:] + scalls + acalls if r["raised"]]
+            if status == 0 and problems:
+                bad("C10:success-status-without-effect", f"{cid} (named {len(es)} times, values {[e['value'] for e in es]!r}) answered success (HTTP {http}) but " + "; ".join(problems))
+            elif status == 0 and raised:
+                bad("C10:success-status-despite-failing-callback", f"{cid} answered success (HTTP {http}) although its {'/'.join(raised)} callback raised")
+            if not (not problems and not raised and status == 0):
+                all_ok = False
+            good_rets = [r for r in ccalls if not r["raised"] and r["ret"] is not None]
+            if any(e.get("r") for e in es) and good_rets:
+                wr_due_maybe = True
+            if all(e.get("r") for e in es) and len(ccalls) == len(es) and len(good_rets) == len(ccalls):
+                wr_due_sure = True
+            continue
+
+        e = es[0]
+        acc, n = (False, None)
+        if e["value"] is not None:
+            acc, n = normalise(cid, e["value"])
 
         # what "success" means, judged on the observed effects
         problems = []
@@ -893,20 +1070,25 @@ def judge_write(ctx: Ctx, script: dict, idx: int, ops: List[dict], obs: dict, wo
         if not (fine and status == 0):
             all_ok = False
         if e.get("r") and ccalls and not ccalls[0]["raised"] and ccalls[0]["ret"] is not None:
-            wr_due = True
+            wr_due_sure = wr_due_maybe = True
     # "the response is 204 exactly when everything succeeded and no write-response value is due"
     statuses_ok = all(it.get("status") == 0 for it in items)
-    if http == 204 and wr_due:
+    if http == 204 and wr_due_sure:
         bad("C10:204-although-write-response-due", "a requested write-response value was returned by the callback but the answer is 204")
     if http == 207 and statuses_ok and not any("value" in it for it in items):
         bad("C10:207-although-all-succeeded", "207 with only success statuses and no write-response value")
-    if http == 207 and all_ok and not wr_due:
+    if http == 207 and all_ok and not wr_due_maybe:
         bad("C10:207-although-all-succeeded", "every written characteristic succeeded and no write-response value is due, but the answer is 207")
     # entries that were not written (no value) must not have been touched
     for e in entries:
         cid = (e["aid"], e["iid"])
-        if not e["hasValue"] and cid in changed:
+        if not e["hasValue"] and cid not in named and cid in changed:
             bad("C10:unwritten-characteristic-changed", f"{cid} carried no value but changed")
+
+
+def changed_now(obs):
+    return [c for c in obs["before"] if not ref.same_value(obs["before"][c], obs["after"][c])
+            or type(obs["before"][c]) is not type(obs["after"][c])]
 
 
 def strip(ops):
@@ -992,7 +1174,9 @@ def run(ctx: Ctx):
         "one case = one history (prepare / advance / write / connection end [client close, Connection: close, HTTP/1.0, "
         "undecryptable frame, idle sweep] followed by new connections from the same peer address, across up to 3 "
         "connection slots and 2 pids; writes are "
-        "batches of 1..7 entries over 4 accessories mixing acceptable, normalised, rejected, null and value-less entries, "
+        "batches of 1..10 entries over 4 accessories mixing acceptable, normalised, rejected, null and value-less entries, "
+        "entries naming a characteristic of the batch again, entries naming something that is not a characteristic (unknown "
+        "iid, unknown aid, a service's iid), entries carrying 'ev', "
         "characteristic callbacks absent / returning / returning a write-response value / raising, raising service and "
         "accessory callbacks). Deterministic boundary histories first (never prepared, now == expiry, just expired, ttl 0, "
         "reuse, cross-connection, connection loss by every route x same-address reconnect, malformed prepare, re-prepare), then every entry kind x callback kind "
@@ -1021,6 +1205,13 @@ def run(ctx: Ctx):
             at = f.replay["at"]
             small = minimise(ctx, {"topo": sc["topo"], "ops": copy.deepcopy(sc["ops"][: at + 1])}, f.signature)
             f.replay = {"kind": "script", "topo": small["topo"], "ops": small["ops"]}
+            texts: List[str] = []
+            try:  # describe the minimised input, not the one it was found on
+                run_script(ctx, small, True, lambda sg, tx, f=f: texts.append(tx) if sg == f.signature else None)
+            except Exception:  # noqa: BLE001
+                pass
+            if texts:
+                f.description = texts[0]
         model = run_model_parallel("C10", lines)
         for sc, (ops, obs), m, at in zip(scripts, impl_all, model, ats):
             st.traces_validated += 1
@@ -1066,6 +1257,13 @@ def _count(ctx: Ctx, sc, ops, obs):
         ):
             st.hit("outcome", "write-exactly-at-expiry")
         st.hit("outcome", f"http-{o['http']}")
+        ids = [(e["aid"], e["iid"]) for e in op["entries"]]
+        if len(set(ids)) < len(ids):
+            st.hit("outcome", "batch-names-a-characteristic-twice")
+        if any(is_ghost(e) for e in op["entries"]):
+            st.hit("outcome", "batch-names-a-nonexistent-characteristic")
+        if any(e.get("ev") is not None for e in op["entries"]):
+            st.hit("outcome", "batch-carries-ev")
         for it in (o["body"] or {}).get("characteristics", []):
             st.hit("outcome", f"entry-status-{it.get('status')}" + ("-with-value" if "value" in it else ""))
         if o["http"] == 204:
